@@ -340,7 +340,8 @@ static int bytestream_bsend(struct xcm_socket *conn_s, const void *buf,
 	    if (errno != EAGAIN)
 		return -1;
 	    if (socket_wait(conn_s, XCM_SO_SENDABLE) < 0)
-		return -1;
+		/* report what already has been accepted, if anything */
+		return sent > 0 ? sent : -1;
 	} else
 	    sent += rc;
     } while (sent < len);
@@ -375,8 +376,17 @@ int xcm_send(struct xcm_socket *__restrict conn_s,
 	else
 	    rc = msg_bsend(conn_s, buf, len);
 
-	if (rc >= 0 && socket_finish(conn_s) < 0)
-	    return -1;
+	if (rc >= 0) {
+	    /* The data has been accepted, and may well reach the peer. A
+	       signal must not turn the call into a failure, which would
+	       have the application send the same message again. */
+	    int f_rc;
+	    while ((f_rc = socket_finish(conn_s)) < 0 && errno == EINTR)
+		;
+
+	    if (f_rc < 0)
+		return -1;
+	}
 
 	return rc;
     } else
